@@ -126,7 +126,7 @@ class IoSim(Engine):
                 if nl != '\n':
                     doc = doc.replace('\n', nl)
                 pre = draw(st.sampled_from(['', '', '', '', '﻿', '# cömment \U0001f600\n',
-                                            '--- \n', '%YAML 1.1\n---\n']))
+                                            '\uff21\uff22', '\ufefb', '\uf8ff', '\ufffd', '\ufeff\ufeff', '--- \n', '%YAML 1.1\n---\n']))
                 doc = pre + doc
                 pad = draw(st.sampled_from([0] * 12 + [4096, 8192, 12288, 16384]))
                 if pad:
